@@ -70,6 +70,11 @@ def run(ctx):
             return None if a in pyargs[p] else 'python-pass-rejects-argument'
         return None
 
+    if ctx.replay and json.load(open(ctx.replay)).get('kind') == 'fake-clang':
+        import cdharness
+        cdharness.check_part(ctx, python_side=True)
+        print('replayed ->', 'fails' if ctx.violations else 'holds')
+        return 1 if ctx.violations else 0
     if ctx.replay:
         o = json.load(open(ctx.replay))
         if o.get('kind') == 'clex-run':
@@ -196,8 +201,12 @@ def run(ctx):
     shutil.rmtree(cd, ignore_errors=True)
     ctx.sample({'entry': {'pass': 'clangbinarysearch', 'arg': 'remove-unused-function'}, 'registered_class': regs.get('remove-unused-function'), 'multi': regs.get('remove-unused-function') in multi})
     ctx.sample({'clex_prefix_modes': pref, 'clex_exact': sorted(exact)})
+    # both sides for real: the tree's clang_delta driver code compiled against stand-in Clang headers, driven by the tree's
+    # ClangPass and ClangBinarySearchPass (exit statuses 0 / 1 / 255, the count message on stdout and stderr)
+    import cdharness
+    cdharness.check_part(ctx, python_side=True)
     conclude(ctx, [], None)
-    ctx.assumptions += ['clang_delta itself cannot be built or run here: its side of the conventions is read from the sources by cdgen.py',
+    ctx.assumptions += ['the 73 transformations of clang_delta cannot be built here (no Clang development files): their side of the conventions is read from the sources by cdgen.py; the driver code (CLI, manager, counter checks, count messages, exit statuses) is compiled against stand-in Clang headers and run, also under the real Python drivers (tools/cdharness.py)',
                         'clex modes are read from main() of driver.c (integer macros substituted) and each shipped mode is run once on the compiled helper; the exhaustive run of clex is C18']
     return ctx.finish(obligations=OBLIGATIONS,
                       rule='every entry of the four shipped groups judged against the regenerated acceptors (Lean: decide +kernel over the whole table; Python: same reading) and cross-checked by '
